@@ -537,13 +537,6 @@ def drop_workdir(path):
         pass
 
 
-def xml_reader_mode(reader):
-    """strict readers raise on a problem, lenient ones (ignore_errors=True) go on with a warning."""
-    if reader in ('odml.load', 'ODMLReader.from_file') or '(lenient)' in reader:
-        return 'lenient'
-    return 'strict'
-
-
 def generalise(pairs, all_pairs, mode=lambda pair: xml_reader_mode(pair[1])):
     """Turn a set of failing (writer, reader) pairs into labels, using 'any' where the failure does not
     depend on the entry point, and 'strict' / 'lenient' where it only depends on the reader mode."""
@@ -569,6 +562,53 @@ def generalise(pairs, all_pairs, mode=lambda pair: xml_reader_mode(pair[1])):
             out.append(('any', r))
             rest -= ws
     out += sorted(rest)
+    return out
+
+
+def input_kind(label):
+    """'str' | 'bytes' of an input form label ('str:decl=UTF-8', 'bytes:utf-16le/bom+decl', ...)."""
+    return label.split(':', 1)[0]
+
+
+def _chain(dim, value):
+    """Labels that describe one coordinate of a case, from specific to general."""
+    if dim == 'reader':
+        return [value, xml_reader_mode(value), 'any']
+    if dim == 'input':
+        return [value, 'any-' + input_kind(value), 'any']
+    return [value, 'any']
+
+
+def generalise_cases(failing, universe, dims):
+    """Describe a set of failing cases (tuples over `dims`) with as few labels as possible: a coordinate is
+    replaced by a group label ('strict'/'lenient' readers, 'any-str'/'any-bytes' inputs) or by 'any' when every
+    evaluated case the more general label covers fails as well. -> list of label tuples, deterministic."""
+    failing = set(failing)
+    universe = list(universe)
+    if failing and failing == set(universe):
+        return [tuple('any' for _ in dims)]
+    verdict = {}
+
+    def covers(lab, case):
+        return all(l in _chain(d, v) for d, l, v in zip(dims, lab, case))
+
+    def valid(lab):
+        if lab not in verdict:
+            verdict[lab] = all(u in failing for u in universe if covers(lab, u))
+        return verdict[lab]
+
+    out = []
+    for case in sorted(failing):
+        if any(covers(lab, case) for lab in out):
+            continue
+        chains = [_chain(d, v) for d, v in zip(dims, case)]
+        cands = sorted(itertools.product(*[list(enumerate(c)) for c in chains]),
+                       key=lambda c: (-sum(i for i, _ in c), [i for i, _ in c]))
+        for cand in cands:
+            lab = tuple(l for _, l in cand)
+            if valid(lab):
+                out.append(lab)
+                break
     return out
 
 
@@ -762,26 +802,242 @@ def write_xml(name, doc, path):
     return 'ret', (data, path)
 
 
-PLAIN_READERS = ['odml.load', 'ODMLReader.from_string', 'ODMLReader.from_file', 'XMLReader(strict).from_string',
-                 'XMLReader(strict).from_file', 'XMLReader(lenient).from_string', 'XMLReader(lenient).from_file']
-STYLED_READERS = ['odml.load', 'ODMLReader.from_file', 'XMLReader(lenient).from_file']
+# ---------------------------------------------------------------------------------------------
+# input forms: how one XML text reaches the reader (encoding, byte order mark, declaration, bytes or
+# decoded str) and through which entry point. Written from the XML recommendation (4.3.3, appendix F):
+# a byte stream is read in the encoding its BOM / declaration names (UTF-8 without either); a text that
+# is already decoded (str) consists of characters, its declaration has nothing left to say.
+# ---------------------------------------------------------------------------------------------
+DECL_RE = re.compile('^\ufeff?' + r'\s*<\?xml\s[^>]*\?>[ \t\r\n]*')
 
 
-def read_xml(name, text, path):
-    """-> (('ret', doc)|('exc', e), warnings or None)"""
-    if name == 'odml.load':
+def xml_decl(name, quote='"', standalone=False):
+    return '<?xml version=%s1.0%s encoding=%s%s%s%s?>\n' % (quote, quote, quote, name, quote,
+                                                         ' standalone=%syes%s' % (quote, quote) if standalone else '')
+
+
+def strip_decl(text):
+    """The text without byte order mark and XML declaration."""
+    return DECL_RE.sub('', text, count=1)
+
+
+def sniff_decode(data):
+    """Decode the bytes of an XML file the way an XML processor has to: BOM, else declaration, else UTF-8."""
+    for bom, codec in ((codecs.BOM_UTF8, 'utf-8'), (codecs.BOM_UTF16_LE, 'utf-16-le'), (codecs.BOM_UTF16_BE, 'utf-16-be')):
+        if data.startswith(bom):
+            return data[len(bom):].decode(codec)
+    m = re.match(br'\s*<\?xml[^>]*encoding\s*=\s*["\']([A-Za-z0-9._-]+)["\']', data[:200])
+    return data.decode(m.group(1).decode('ascii') if m else 'utf-8')
+
+
+class Form(object):
+    """label, kind ('bytes' | 'str'), codec (python name; None: holds every character), build(body) -> input"""
+
+    def __init__(self, label, codec, name, bom=b'', decl=True, quote='"', as_str=False, str_bom=False):
+        self.label, self.codec, self.name, self.bom = label, codec, name, bom
+        self.decl, self.quote, self.as_str, self.str_bom = decl, quote, as_str, str_bom
+        self.kind = 'str' if as_str else 'bytes'
+        self.limited = codec in ('iso-8859-1', 'iso-8859-15', 'cp1252', 'ascii')
+
+    def fits(self, body):
+        """The characters of body exist in this form's character set (no character reference needed)."""
+        if not self.limited:
+            return True
+        try:
+            body.encode(self.codec)
+            return True
+        except UnicodeEncodeError:
+            return False
+
+    def build(self, body):
+        text = (xml_decl(self.name, self.quote, standalone=self.quote == "'") if self.decl else '') + body
+        if self.codec is None:
+            return ('\ufeff' if self.str_bom else '') + text
+        # a character the encoding does not have is written as a character reference, as any XML writer does
+        raw = text.encode(self.codec, 'xmlcharrefreplace')
+        if self.as_str:
+            # what open(path, encoding=...).read() hands out for such a file
+            return ('\ufeff' if self.str_bom else '') + raw.decode(self.codec)
+        return self.bom + raw
+
+
+FORMS = [
+    Form('bytes:utf-8/decl', 'utf-8', 'UTF-8'),
+    Form('bytes:utf-8/nodecl', 'utf-8', None, decl=False),
+    Form('bytes:utf-8/bom+decl', 'utf-8', 'UTF-8', bom=codecs.BOM_UTF8),
+    Form('bytes:utf-8/bom+nodecl', 'utf-8', None, bom=codecs.BOM_UTF8, decl=False),
+    Form("bytes:utf-8/decl-lowercase-single-quoted-standalone", 'utf-8', 'utf-8', quote="'"),
+    Form('bytes:iso-8859-1/decl', 'iso-8859-1', 'ISO-8859-1'),
+    Form('bytes:iso-8859-15/decl', 'iso-8859-15', 'ISO-8859-15'),
+    Form('bytes:windows-1252/decl', 'cp1252', 'windows-1252'),
+    Form('bytes:us-ascii/decl', 'ascii', 'US-ASCII'),
+    Form('bytes:ascii-charrefs/nodecl', 'ascii', None, decl=False),
+    Form('bytes:utf-16le/bom+decl', 'utf-16-le', 'UTF-16', bom=codecs.BOM_UTF16_LE),
+    Form('bytes:utf-16le/bom+nodecl', 'utf-16-le', None, bom=codecs.BOM_UTF16_LE, decl=False),
+    Form('bytes:utf-16be/bom+decl', 'utf-16-be', 'UTF-16', bom=codecs.BOM_UTF16_BE),
+    Form('bytes:utf-16be/bom+nodecl', 'utf-16-be', None, bom=codecs.BOM_UTF16_BE, decl=False),
+    Form('bytes:utf-16le/nobom+decl=UTF-16LE', 'utf-16-le', 'UTF-16LE'),
+    Form('bytes:utf-16be/nobom+decl=UTF-16BE', 'utf-16-be', 'UTF-16BE'),
+    Form('str:nodecl', None, None, decl=False, as_str=True),
+    Form('str:decl=UTF-8', None, 'UTF-8', as_str=True),
+    Form('str:decl=utf-8-single-quoted', None, 'utf-8', quote="'", as_str=True),
+    Form('str:bom+decl=UTF-8', None, 'UTF-8', as_str=True, str_bom=True),
+    Form('str:decl=ISO-8859-1', 'iso-8859-1', 'ISO-8859-1', as_str=True),
+    Form('str:decl=ISO-8859-15', 'iso-8859-15', 'ISO-8859-15', as_str=True),
+    Form('str:decl=windows-1252', 'cp1252', 'windows-1252', as_str=True),
+    Form('str:decl=US-ASCII', 'ascii', 'US-ASCII', as_str=True),
+    Form('str:decl=UTF-16', 'utf-16', 'UTF-16', as_str=True),
+]
+FORM_BY_LABEL = dict((f.label, f) for f in FORMS)
+
+# entry points by the kind of input they take
+BYTES_READERS = ['XMLReader(strict).from_string[bytes]', 'XMLReader(lenient).from_string[bytes]',
+                 'ODMLReader.from_string[bytes]', 'XMLReader(strict).from_file[path]',
+                 'XMLReader(lenient).from_file[path]', 'XMLReader(strict).from_file[binary-handle]',
+                 'XMLReader(lenient).from_file[BytesIO]', 'ODMLReader.from_file[path]', 'odml.load']
+STR_READERS = ['XMLReader(strict).from_string[str]', 'XMLReader(lenient).from_string[str]',
+               'ODMLReader.from_string[str]']
+# A text-mode handle hands the parser decoded text as well. Only used where the declaration (if any) names the
+# encoding the handle decodes with: what a parser library does with a text stream whose declaration disagrees
+# is not covered by the statement (not flagged; see report).
+TEXT_HANDLE_READERS = ['XMLReader(strict).from_file[text-handle utf-8]']
+TEXT_HANDLE_FORMS = ('str:nodecl', 'str:decl=UTF-8', 'str:decl=utf-8-single-quoted', 'str:as-returned',
+                     'str:own-decl+returned', 'str:library-header+returned', 'str:file-decoded')
+STRINGIO_READERS = ['XMLReader(lenient).from_file[StringIO]']
+STRINGIO_FORMS = ('str:nodecl', 'str:as-returned')
+# the statement promises for styled output: odml.load, to the same document
+STYLED_READERS = ['odml.load', 'ODMLReader.from_file[path]', 'XMLReader(lenient).from_file[path]']
+
+
+def readers_for(input_label, styled=False):
+    if styled:
+        return list(STYLED_READERS) if input_kind(input_label) == 'bytes' else []
+    if input_kind(input_label) == 'bytes':
+        return list(BYTES_READERS)
+    out = list(STR_READERS)
+    if input_label in TEXT_HANDLE_FORMS:
+        out += TEXT_HANDLE_READERS
+    if input_label in STRINGIO_FORMS:
+        out += STRINGIO_READERS
+    return out
+
+
+def xml_reader_mode(reader):
+    """strict readers raise on a problem, lenient ones (ignore_errors=True) go on with a warning."""
+    if reader == 'odml.load' or reader.startswith('ODMLReader.from_file') or '(lenient)' in reader:
+        return 'lenient'
+    return 'strict'
+
+
+def read_input(reader, data, path):
+    """Hand `data` (bytes | str) to one entry point; file entry points read `path`, which this function
+    fills with the bytes (str: UTF-8 encoded, for the text handle) unless data is None (file as written).
+    -> (('ret', doc) | ('exc', e), warnings or None)"""
+    needs_file = '[path]' in reader or reader == 'odml.load' or 'handle' in reader
+    if needs_file and data is not None:
+        with open(path, 'wb') as f:
+            f.write(data.encode('utf-8') if isinstance(data, str) else data)
+    if reader == 'odml.load':
         return h.call(odml.load, path, show_warnings=False), None
-    if name == 'ODMLReader.from_string':
-        return h.call(ODMLReader('XML', show_warnings=False).from_string, text), None
-    if name == 'ODMLReader.from_file':
+    if reader.startswith('ODMLReader.from_string'):
+        return h.call(ODMLReader('XML', show_warnings=False).from_string, data), None
+    if reader == 'ODMLReader.from_file[path]':
         return h.call(ODMLReader('XML', show_warnings=False).from_file, path), None
-    strict = '(strict)' in name
-    rd = xp.XMLReader(ignore_errors=not strict, show_warnings=False)
-    if name.endswith('from_string'):
-        r = h.call(rd.from_string, text)
-    else:
-        r = h.call(rd.from_file, path)
+    rd = xp.XMLReader(ignore_errors='(strict)' not in reader, show_warnings=False)
+    how = reader[reader.index(').') + 2:]
+    handle = None
+    try:
+        if how.startswith('from_string'):
+            r = h.call(rd.from_string, data)
+        elif how == 'from_file[path]':
+            r = h.call(rd.from_file, path)
+        elif how == 'from_file[binary-handle]':
+            handle = open(path, 'rb')
+            r = h.call(rd.from_file, handle)
+        elif how == 'from_file[text-handle utf-8]':
+            handle = open(path, 'r', encoding='utf-8')
+            r = h.call(rd.from_file, handle)
+        elif how == 'from_file[BytesIO]':
+            r = h.call(rd.from_file, io.BytesIO(data))
+        elif how == 'from_file[StringIO]':
+            r = h.call(rd.from_file, io.StringIO(data))
+        else:
+            raise KeyError(reader)
+    finally:
+        if handle is not None and not handle.closed:
+            handle.close()
     return r, list(rd.warnings)
+
+
+def select_forms(rich, k, body, tier):
+    """Input forms for one text: all of them for the fixed documents (and, thorough tier, for generated documents
+    with non-ASCII text); otherwise the plain ones plus a window of four that moves with the case number."""
+    if rich or (tier != 'quick' and not body.isascii()):
+        return list(FORMS)
+    base = ['bytes:utf-8/decl', 'str:nodecl', 'str:decl=UTF-8']
+    rest = [f for f in FORMS if f.label not in base]
+    pick = [rest[(4 * k + j) % len(rest)] for j in range(4)]
+    return [FORM_BY_LABEL[b] for b in base] + pick
+
+
+class Cases(object):
+    """Evaluates (source, input form, reader) cases of one document and files the differences by class."""
+
+    def __init__(self, col, agg, part, doc, label, sig, path, source_dim, contract):
+        self.col, self.agg, self.part, self.doc, self.label, self.sig = col, agg, part, doc, label, sig
+        self.path, self.source_dim, self.contract = path, source_dim, contract
+        self.found = {}
+        self.universe = []
+
+    def note(self, case, check, feature, obj, field, detail):
+        self.found.setdefault((check, feature, obj, field), {'cases': set(), 'detail': detail})['cases'].add(case)
+
+    def evaluate(self, source, input_label, data, reader, styled=False, expect_no_warnings=True):
+        case = (source, input_label, reader)
+        self.col.case(cls_key=(self.sig, source, input_label, reader),
+                      sample='%s | %s | %s -> %s' % (self.label, source, input_label, reader))
+        self.universe.append(case)
+        (k, loaded), warns = read_input(reader, data, self.path)
+        if k == 'exc':
+            self.note(case, 'reader-accepts', exc_feature(loaded), '/', None,
+                      'reader raised %s: %s' % (type(loaded).__name__, str(loaded)[:200]))
+            return
+        if not isinstance(loaded, h.BaseDocument):
+            self.note(case, 'reader-accepts', 'no-document-returned', '/', None, 'reader returned %r' % (loaded,))
+            return
+        for d in doc_differences(self.doc, loaded, strip=True):
+            self.note(case, d['clause'], d['feature'], d['object'], d.get('field'), d['detail'])
+        if not styled and expect_no_warnings and '(strict)' in reader and warns:
+            self.note(case, 'strict-no-warnings', 'warnings-on-1.1-xml', '/', None,
+                      'strict reader warnings: %r' % (warns[:2],))
+
+    def flush(self):
+        dims = (self.source_dim, 'input', 'reader')
+        for (check, feature, obj, field), info in self.found.items():
+            for lab in generalise_cases(info['cases'], self.universe, dims):
+                cls = {'clause': check, 'feature': feature}
+                cls.update(zip(dims, lab))
+                self.agg.add(check='%s/%s' % (self.part, check), cls=cls,
+                             witness={'doc': self.label, 'object': obj, 'field': field,
+                                      'cases': sorted(info['cases'])[:3]},
+                             detail=info['detail'] + '; contract: ' + self.contract)
+
+
+def native_inputs(produced, path):
+    """What the writer handed out, in the forms a caller can pass on without touching it.
+    -> list of (input label, data | None (= the file as written)), body text for re-encoding"""
+    if isinstance(produced, str):
+        body = strip_decl(produced)
+        return [('str:as-returned', produced),
+                ('str:own-decl+returned', XML_DECL + body),
+                ('str:library-header+returned', xp.XMLWriter.header + body),
+                ('bytes:own-decl+returned/utf-8', (XML_DECL + body).encode('utf-8'))], body
+    text = sniff_decode(produced)
+    return [('bytes:file-as-written', None), ('bytes:file-content', produced), ('str:file-decoded', text)], \
+        strip_decl(text)
+
+
+FILE_NAMES = ['doc.xml', 'mit leer.odml', 'dätei 日本.xml', 'a%20b#c&d.xml', "q'[x]+.xml"]
 
 
 def run_roundtrip(tier, seed):
@@ -789,61 +1045,64 @@ def run_roundtrip(tier, seed):
         'C01.xml_roundtrip',
         rule='documents = harness.gen_docs (all forest shapes up to %d sections x random fillings) + fixed documents '
              '(all dtypes/value pool, every cardinality shape on section/property/value level, edge strings, every '
-             'optional attribute) x 6 writer entry points x 7 reader entry points (3 for styled output); distinct = '
-             '(document content signature, writer, reader)' % (3 if tier == 'quick' else 4), exhaustive=False)
+             'optional attribute, non-ASCII text of 5 repertoires in every text attribute, CR / CR LF in text, line '
+             'breaks inside n-tuple elements) x 6 writer entry points x input forms (the output as handed out: file, '
+             'file content as bytes, decoded text, returned str with/without declaration; and the same text '
+             're-encoded in %d forms: utf-8 / iso-8859-1 / iso-8859-15 / windows-1252 / us-ascii / utf-16 le+be, '
+             'with/without BOM and declaration, as bytes and as decoded str - all forms for the fixed documents, '
+             'a moving window for the generated ones) x the reader entry points of that kind (9 for bytes: '
+             'from_string, from_file path / binary handle / BytesIO, ODMLReader, odml.load, strict and lenient; '
+             '3-5 for str; 3 for styled output) + 5 file names; distinct = (document content signature, writer, '
+             'input form, reader)' % (3 if tier == 'quick' else 4, len(FORMS)), exhaustive=False)
     agg = Agg(col)
     work = fresh_workdir('c01_roundtrip')
     path = os.path.join(work, 'doc.xml')
+    path2 = os.path.join(work, 'reencoded.xml')
     writer_raised = 0
+    contract = 'loaded document equals the saved one (text after strip) or the writer raises'
     try:
-        for label, doc in documents(tier, seed):
+        for n_doc, (label, doc, rich) in enumerate(c01_documents(tier, seed)):
             sig = doc_signature(doc)
             before = h.snap(doc, parent=False)
-            found = {}       # (check, clause, feature, object, field) -> {'pairs': set, 'detail':..}
-            all_pairs = []
-            for wname, _produces, styled in WRITERS:
+            cases = Cases(col, agg, 'C01.xml_roundtrip', doc, label, sig, path2, 'writer', contract)
+            for n_w, (wname, _produces, styled) in enumerate(WRITERS):
                 w = write_xml(wname, doc, path)
                 if w[0] == 'exc':
                     # allowed by the contract ("or the writer raises"); counted, not flagged
                     writer_raised += 1
                     col.case(cls_key=(sig, wname, 'writer-raised'), sample=None)
                     continue
-                text, fpath = w[1]
-                for rname in (STYLED_READERS if styled else PLAIN_READERS):
-                    col.case(cls_key=(sig, wname, rname), sample='%s | %s -> %s' % (label, wname, rname))
-                    all_pairs.append((wname, rname))
-                    (k, loaded), warns = read_xml(rname, text, fpath)
-
-                    def note(check, clause, feature, obj, field, detail):
-                        key = (check, clause, feature, obj, field)
-                        found.setdefault(key, {'pairs': set(), 'detail': detail})['pairs'].add((wname, rname))
-
-                    if k == 'exc':
-                        note('reader-accepts', 'reader-accepts', exc_feature(loaded), '/', None,
-                             'reader raised %s: %s' % (type(loaded).__name__, str(loaded)[:200]))
-                        continue
-                    if not isinstance(loaded, h.BaseDocument):
-                        note('reader-accepts', 'reader-accepts', 'no-document-returned', '/', None,
-                             'reader returned %r' % (loaded,))
-                        continue
-                    for d in doc_differences(doc, loaded, strip=True):
-                        note(d['clause'], d['clause'], d['feature'], d['object'], d.get('field'), d['detail'])
-                    if not styled and '(strict)' in rname and warns:
-                        note('strict-no-warnings', 'strict-no-warnings', 'warnings-on-plain-output', '/', None,
-                             'strict reader warnings: %r' % (warns[:2],))
+                produced, fpath = w[1]
+                natives, body = native_inputs(produced, fpath)
+                for input_label, data in natives:
+                    for rname in readers_for(input_label, styled):
+                        cases.path = fpath if data is None else path2
+                        cases.evaluate(wname, input_label, data, rname, styled)
+                for form in select_forms(rich, n_doc * len(WRITERS) + n_w, body, tier):
+                    if styled and not form.fits(body):
+                        continue        # character references inside the stylesheet element are not ours to write
+                    data = form.build(body)
+                    for rname in readers_for(form.label, styled):
+                        cases.path = path2
+                        cases.evaluate(wname, form.label, data, rname, styled)
+            # file names: the path is no part of the document
+            if rich:
+                for fname in FILE_NAMES:
+                    for wname, rname in (('odml.save', 'odml.load'),
+                                         ('XMLWriter.write_file', 'XMLReader(strict).from_file[path]')):
+                        fpath = os.path.join(work, fname)
+                        w = write_xml(wname, doc, fpath)
+                        if w[0] == 'exc':
+                            writer_raised += 1
+                            continue
+                        cases.path = fpath
+                        cases.evaluate(wname, 'bytes:file-as-written/name=' + ascii(fname), None, rname)
+            cases.flush()
             if h.snap(doc, parent=False) != before:
                 agg.add(check='C01.xml_roundtrip/writer-leaves-document-unchanged',
                         cls={'clause': 'writer-leaves-document-unchanged', 'feature': 'any'},
                         witness={'doc': label}, detail='saving/loading changed the original document: %s'
                         % h.diff(before, h.snap(doc, parent=False)))
-            for (check, clause, feature, obj, field), info in found.items():
-                for wl, rl in generalise(info['pairs'], all_pairs):
-                    agg.add(check='C01.xml_roundtrip/' + check,
-                            cls={'clause': clause, 'feature': feature, 'writer': wl, 'reader': rl},
-                            witness={'doc': label, 'object': obj, 'field': field,
-                                     'pairs': sorted(info['pairs'])[:3]},
-                            detail=info['detail'] + '; contract: loaded document equals the saved one (text after '
-                                                    'strip) or the writer raises')
     finally:
         drop_workdir(work)
     agg.flush()
@@ -992,103 +1251,149 @@ def card_text(c):
     return '(%s, %s)' % (c[0], c[1])
 
 
-def foreign_xml(doc):
-    """Independent odML 1.1 XML serializer (stdlib ElementTree, private fields only)."""
-    def leaf(parent, tag, text):
+def foreign_tree(doc, reordered=False):
+    """The document as a tree of odML 1.1 elements: (tag, text | None, children) read from private fields.
+    reordered: another legal arrangement (sub sections before properties, leaf elements in reverse order);
+    the order among sections and among properties is part of the document and stays."""
+    def leaves(pairs):
+        out = [(tag, text, ()) for tag, text in pairs if text is not None]
+        return out[::-1] if reordered else out
+
+    def prop_el(p):
+        return ('property', None, leaves([
+            ('name', p._name), ('id', p._id), ('type', p._dtype), ('value', value_text(p)), ('unit', p._unit),
+            ('uncertainty', None if p._uncertainty is None else repr(p._uncertainty)),
+            ('definition', p._definition), ('reference', p._reference), ('dependency', p._dependency),
+            ('dependencyvalue', p._dependency_value), ('value_origin', p._value_origin),
+            ('val_cardinality', None if p._val_cardinality is None else card_text(p._val_cardinality))]))
+
+    def sec_el(s):
+        head = leaves([
+            ('name', s._name), ('type', s.type), ('id', s._id), ('definition', s._definition),
+            ('reference', s._reference),
+            ('sec_cardinality', None if s._sec_cardinality is None else card_text(s._sec_cardinality)),
+            ('prop_cardinality', None if s._prop_cardinality is None else card_text(s._prop_cardinality))])
+        props = [prop_el(p) for p in list.__iter__(s._props)]
+        secs = [sec_el(c) for c in list.__iter__(s._sections)]
+        return ('section', None, head + (secs + props if reordered else props + secs))
+
+    head = leaves([('author', doc._author), ('version', doc._version),
+                   ('date', None if doc._date is None else doc._date.strftime('%Y-%m-%d')), ('id', doc._id)])
+    return ('odML', None, head + [sec_el(s) for s in list.__iter__(doc._sections)])
+
+
+def xml_text(text, style):
+    """Character data for `text` in one of the spellings XML offers."""
+    if style == 'cdata' and '\r' not in text:
+        return '<![CDATA[' + text.replace(']]>', ']]]]><![CDATA[>') + ']]>'
+    if style == 'charref':
+        return ''.join('&#x%X;' % ord(ch) if (ch in '&<>"\'\r\n\t' or ord(ch) > 126) else ch for ch in text)
+    # a literal CR would be read as LF (XML 2.11): it has to be a character reference
+    return text.replace('&', '&amp;').replace('<', '&lt;').replace('>', '&gt;').replace('\r', '&#13;')
+
+
+# name -> (text style, indented, comments and processing instruction, reordered, CR LF line ends)
+VARIANTS = {
+    'escaped/compact': ('escaped', False, False, False, False),
+    'escaped/indented+comments+pi+reordered': ('escaped', True, True, True, False),
+    'cdata/indented': ('cdata', True, False, False, False),
+    'charref/compact+reordered': ('charref', False, False, True, False),
+    'escaped/indented+crlf': ('escaped', True, False, False, True),
+}
+
+
+def foreign_body(doc, variant):
+    """Independent odML 1.1 XML serializer (own code, private fields only): root element without declaration."""
+    style, indented, comments, reordered, crlf = VARIANTS[variant]
+    out = []
+
+    def emit(node, depth):
+        tag, text, children = node
+        pad = '\n' + '  ' * depth if indented else ''
+        if tag == 'odML':
+            out.append('<odML version="%s">' % FORMAT_VERSION_11)
+        else:
+            out.append('%s<%s>' % (pad, tag))
         if text is not None:
-            StdET.SubElement(parent, tag).text = text
+            out.append(xml_text(text, style))
+        for i, child in enumerate(children):
+            if comments and child[0] in ('section', 'property', 'value') and i % 2 == 0:
+                out.append('%s  <!-- a comment: é < & > -->' % pad)
+            emit(child, depth + 1)
+        if children:
+            out.append(pad)
+        out.append('</%s>' % tag)
 
-    def prop_el(parent, p):
-        el = StdET.SubElement(parent, 'property')
-        leaf(el, 'name', p._name)
-        leaf(el, 'id', p._id)
-        leaf(el, 'type', p._dtype)
-        leaf(el, 'value', value_text(p))
-        leaf(el, 'unit', p._unit)
-        leaf(el, 'uncertainty', None if p._uncertainty is None else repr(p._uncertainty))
-        leaf(el, 'definition', p._definition)
-        leaf(el, 'reference', p._reference)
-        leaf(el, 'dependency', p._dependency)
-        leaf(el, 'dependencyvalue', p._dependency_value)
-        leaf(el, 'value_origin', p._value_origin)
-        leaf(el, 'val_cardinality', None if p._val_cardinality is None else card_text(p._val_cardinality))
-
-    def sec_el(parent, s):
-        el = StdET.SubElement(parent, 'section')
-        leaf(el, 'name', s._name)
-        leaf(el, 'type', s.type)
-        leaf(el, 'id', s._id)
-        leaf(el, 'definition', s._definition)
-        leaf(el, 'reference', s._reference)
-        leaf(el, 'sec_cardinality', None if s._sec_cardinality is None else card_text(s._sec_cardinality))
-        leaf(el, 'prop_cardinality', None if s._prop_cardinality is None else card_text(s._prop_cardinality))
-        for p in list.__iter__(s._props):
-            prop_el(el, p)
-        for c in list.__iter__(s._sections):
-            sec_el(el, c)
-
-    root = StdET.Element('odML', {'version': FORMAT_VERSION_11})
-    leaf(root, 'author', doc._author)
-    leaf(root, 'version', doc._version)
-    leaf(root, 'date', None if doc._date is None else doc._date.strftime('%Y-%m-%d'))
-    leaf(root, 'id', doc._id)
-    for s in list.__iter__(doc._sections):
-        sec_el(root, s)
-    return StdET.tostring(root, encoding='unicode')
+    if comments:
+        out.append('<?xml-stylesheet type="text/xsl" href="other.xsl"?>\n<!-- written by another tool -->\n')
+    emit(foreign_tree(doc, reordered), 0)
+    if comments:
+        out.append('\n<!-- end -->')
+    body = ''.join(out) + '\n'
+    return body.replace('\n', '\r\n') if crlf else body
 
 
-FOREIGN_READERS = ['odml.load', 'ODMLReader.from_string', 'XMLReader(strict).from_string',
-                   'XMLReader(strict).from_file', 'XMLReader(lenient).from_string']
+def foreign_xml(doc):
+    return foreign_body(doc, 'escaped/compact')
+
+
+def std_image(root):
+    """Tag / text structure of a stdlib ElementTree element (leaf text only)."""
+    kids = list(root)
+    return (root.tag, tuple(sorted(root.attrib.items())), None if kids else (root.text or ''),
+            tuple(std_image(k) for k in kids))
+
+
+def tree_image(node):
+    tag, text, children = node
+    return (tag, (('version', FORMAT_VERSION_11),) if tag == 'odML' else (), None if children else (text or ''),
+            tuple(tree_image(c) for c in children))
+
+
+def select_variants(rich, k, tier):
+    names = list(VARIANTS)
+    if rich or tier != 'quick':
+        return names
+    return [names[0], names[1 + k % (len(names) - 1)]]
 
 
 def run_foreign_writer(tier, seed):
     col = h.Collector(
         'C01.xml_foreign_writer',
-        rule='every document of the round-trip generator serialised by an independent stdlib-ElementTree writer '
-             '(1.1 vocabulary, different element order, values in the documented syntax) x 5 reader entry points; '
-             'distinct = (document content signature, reader)', exhaustive=False)
+        rule='every document of the round-trip generator serialised by an independent writer (1.1 vocabulary, values '
+             'in the documented syntax) in %d spellings (text escaped / CDATA / character references; compact / '
+             'indented / CR LF line ends; comments and a processing instruction; other element order) x %d input '
+             'forms (utf-8 / iso-8859-1 / iso-8859-15 / windows-1252 / us-ascii / utf-16 le+be, with/without BOM '
+             'and declaration, as bytes and as decoded str whatever its declaration says; characters outside the '
+             'encoding as character references) x the reader entry points of that kind (9 for bytes, 3-5 for str); '
+             'all combinations for the fixed documents, a moving window for the generated ones; every input is first '
+             'parsed with xml.etree (expat) and must describe the tree that was serialised; distinct = (document '
+             'content signature, spelling, input form, reader)' % (len(VARIANTS), len(FORMS)), exhaustive=False)
     agg = Agg(col)
     work = fresh_workdir('c01_foreign')
     path = os.path.join(work, 'doc.xml')
+    contract = '1.1 XML from another tool loads to the document it describes'
     try:
-        for label, doc in documents(tier, seed):
+        for n_doc, (label, doc, rich) in enumerate(c01_documents(tier, seed)):
             sig = doc_signature(doc)
-            text = foreign_xml(doc)
-            with open(path, 'w', encoding='utf-8') as f:
-                f.write(XML_DECL + text)
-            # sanity of my own writer: vocabulary-conformant
-            own = vocabulary_problems(StdET.fromstring(text), styled=False)
-            if own:
-                raise AssertionError('foreign writer is not 1.1 conformant: %r' % (own[:3],))
-            found = {}
-            all_pairs = []
-            for rname in FOREIGN_READERS:
-                col.case(cls_key=(sig, rname), sample='%s -> %s' % (label, rname))
-                all_pairs.append(('foreign', rname))
-                (k, loaded), warns = read_xml(rname, text, path)
-
-                def note(check, feature, obj, field, detail):
-                    found.setdefault((check, feature, obj, field), {'pairs': set(), 'detail': detail})['pairs'] \
-                        .add(('foreign', rname))
-
-                if k == 'exc':
-                    note('reader-accepts', exc_feature(loaded), '/', None,
-                         'reader raised %s: %s' % (type(loaded).__name__, str(loaded)[:200]))
-                    continue
-                if not isinstance(loaded, h.BaseDocument):
-                    note('reader-accepts', 'no-document-returned', '/', None, 'reader returned %r' % (loaded,))
-                    continue
-                for d in doc_differences(doc, loaded, strip=True):
-                    note(d['clause'], d['feature'], d['object'], d.get('field'), d['detail'])
-                if '(strict)' in rname and warns:
-                    note('strict-no-warnings', 'warnings-on-1.1-input', '/', None, 'warnings: %r' % (warns[:2],))
-            for (check, feature, obj, field), info in found.items():
-                for _wl, rl in generalise(info['pairs'], all_pairs):
-                    agg.add(check='C01.xml_foreign_writer/' + check,
-                            cls={'clause': check, 'feature': feature, 'reader': rl},
-                            witness={'doc': label, 'object': obj, 'field': field},
-                            detail=info['detail'] + '; contract: 1.1 XML from another tool loads to the document it '
-                                                    'describes')
+            cases = Cases(col, agg, 'C01.xml_foreign_writer', doc, label, sig, path, 'spelling', contract)
+            for n_v, variant in enumerate(select_variants(rich, n_doc, tier)):
+                body = foreign_body(doc, variant)
+                described = tree_image(foreign_tree(doc, VARIANTS[variant][3]))
+                # sanity of my own writer: vocabulary-conformant
+                own = vocabulary_problems(StdET.fromstring(body), styled=False)
+                if own:
+                    raise AssertionError('foreign writer is not 1.1 conformant: %r' % (own[:3],))
+                for form in select_forms(rich, n_doc * len(VARIANTS) + n_v, body, tier):
+                    if VARIANTS[variant][0] == 'cdata' and not form.fits(body):
+                        continue        # no character references inside CDATA
+                    data = form.build(body)
+                    # sanity of the input: an independent XML processor reads the serialised tree from it
+                    if std_image(StdET.fromstring(data)) != described:
+                        raise AssertionError('input %s / %s does not describe the document' % (variant, form.label))
+                    for rname in readers_for(form.label):
+                        cases.evaluate(variant, form.label, data, rname)
+            cases.flush()
     finally:
         drop_workdir(work)
     agg.flush()
